@@ -261,3 +261,184 @@ Section Example.
                            draw budget stop strats b1 b2 ran E).
   Qed.
 End Example.
+
+(** ** The factor 2 of [cum_regret_bound] is needed: a 2x2 simultaneous game (player one
+    picks a row, player two — one infoset — a column; payoff 1 in one cell, 0 elsewhere)
+    in which, after two iterations, the true regret (3/16) exceeds half of the returned
+    bound (1/4 / 2 = 1/8) *)
+Definition g2 : game :=
+  @mkGame RNum [] [mkPinfo 0 [0%N; 1%N] None] [mkPinfo 0 [0%N; 1%N] None] [] []
+          (@Player RNum true 0
+             [@Player RNum false 0 [@Term RNum 0; @Term RNum 0];
+              @Player RNum false 0 [@Term RNum 0; @Term RNum 1]]).
+
+Definition st12 (a1 a2 c1 c2 a3 a4 c3 c4 : R) (s1 s2 : list R) : @pstate RNum :=
+  ([@mkRinfo RNum [a1; a2] [c1; c2] s1], [@mkRinfo RNum [a3; a4] [c3; c4] s2]).
+
+Lemma st12_ext a1 a2 c1 c2 a3 a4 c3 c4 s1 s2 a1' a2' c1' c2' a3' a4' c3' c4' s1' s2' :
+  a1 = a1' -> a2 = a2' -> c1 = c1' -> c2 = c2' -> a3 = a3' -> a4 = a4' -> c3 = c3' -> c4 = c4' ->
+  s1 = s1' -> s2 = s2' ->
+  st12 a1 a2 c1 c2 a3 a4 c3 c4 s1 s2 = st12 a1' a2' c1' c2' a3' a4' c3' c4' s1' s2'.
+Proof. intros; subst; reflexivity. Qed.
+
+Lemma g2_vrec draw pass a1 a2 c1 c2 e1 e2 a3 a4 c3 c4 f1 f2 :
+  snd (@vrec RNum [] false draw pass (g_root g2) 1 1 1 (st12 a1 a2 c1 c2 a3 a4 c3 c4 [e1; e2] [f1; f2])) =
+  st12 (a1 - f2 * e2) (a2 + f2 - f2 * e2) (c1 + e1) (c2 + e2)
+       (a3 + e2 * f2) (a4 - e2 + e2 * f2) (c3 + 2 * f1) (c4 + 2 * f2) [e1; e2] [f1; f2].
+Proof.
+  unfold st12 at 1. cbv -[Rmax Rltb Rleb Reqb Rdiv Rplus Rmult Rminus Ropp Rinv IZR INR N.to_nat st12].
+  apply st12_ext; try reflexivity; ring.
+Qed.
+
+Lemma g2_iter draw it a1 a2 c1 c2 e1 e2 a3 a4 c3 c4 f1 f2 :
+  @vanilla_iter RNum g2 false draw (@p_vanilla RNum) it (st12 a1 a2 c1 c2 a3 a4 c3 c4 [e1; e2] [f1; f2]) =
+  let r1 := [a1 - f2 * e2; a2 + f2 - f2 * e2] in
+  let r2 := [a3 + e2 * f2; a4 - e2 + e2 * f2] in
+  (st12 (a1 - f2 * e2) (a2 + f2 - f2 * e2) (c1 + e1) (c2 + e2)
+        (a3 + e2 * f2) (a4 - e2 + e2 * f2) (c3 + 2 * f1) (c4 + 2 * f2)
+        (@regret_match RNum (@p_vanilla RNum) r1) (@regret_match RNum (@p_vanilla RNum) r2),
+   (2 * Rmax (Rmax (a1 - f2 * e2) (a2 + f2 - f2 * e2)) 0 / INR (N.to_nat it),
+    2 * Rmax (Rmax (a3 + e2 * f2) (a4 - e2 + e2 * f2)) 0 / INR (N.to_nat it))).
+Proof.
+  rewrite vanilla_iter_state. cbv zeta. change (g_chance g2) with (@nil (list R)).
+  rewrite g2_vrec. unfold st12. cbn [fst snd map adv_vanilla cum_regret cum_strat Rsum].
+  unfold info_bound, Rmaxl. cbn [cum_regret reduce_max fold_left fmax RNum].
+  f_equal. f_equal; apply Rplus_0_r.
+Qed.
+
+Lemma rm_np x y : x <= 0 -> 0 < y -> @regret_match RNum (@p_vanilla RNum) [x; y] = [0; 1].
+Proof.
+  intros Hx Hy. rewrite regret_match_unfold. cbv zeta. cbn [filter].
+  assert (E1 : Rltb 0 x = false) by (apply Rltb_false; lra).
+  assert (E2 : Rltb 0 y = true) by (apply Rltb_true; lra).
+  rewrite E1, E2. cbn [Rsum].
+  assert (E3 : Rltb 0 (y + 0) = true) by (apply Rltb_true; lra).
+  rewrite E3. cbn [map]. rewrite E1, E2. f_equal. f_equal. field. lra.
+Qed.
+
+Lemma rm_pn x y : 0 < x -> y <= 0 -> @regret_match RNum (@p_vanilla RNum) [x; y] = [1; 0].
+Proof.
+  intros Hx Hy. rewrite regret_match_unfold. cbv zeta. cbn [filter].
+  assert (E1 : Rltb 0 x = true) by (apply Rltb_true; lra).
+  assert (E2 : Rltb 0 y = false) by (apply Rltb_false; lra).
+  rewrite E1, E2. cbn [Rsum].
+  assert (E3 : Rltb 0 (x + 0) = true) by (apply Rltb_true; lra).
+  rewrite E3. cbn [map]. rewrite E1, E2. f_equal. field. lra.
+Qed.
+
+Lemma avg2 x y : x + y <> 0 -> @avg_strat RNum [x; y] = [x / (x + y); y / (x + y)].
+Proof.
+  intros Hne. rewrite avg_strat_unfold. cbn [Rsum].
+  assert (E : Reqb (x + (y + 0)) 0 = false) by (apply Reqb_false; lra).
+  rewrite E. cbn [map]. f_equal; [|f_equal]; field; lra.
+Qed.
+
+Lemma bound2_r x y d : x <= y -> 0 <= y -> 2 * Rmax (Rmax x y) 0 / d = 2 * y / d.
+Proof. intros H1 H2. rewrite (Rmax_right x y) by lra. rewrite (Rmax_left y 0) by lra. reflexivity. Qed.
+Lemma bound2_l x y d : y <= x -> 0 <= x -> 2 * Rmax (Rmax x y) 0 / d = 2 * x / d.
+Proof. intros H1 H2. rewrite (Rmax_left x y) by lra. rewrite (Rmax_left x 0) by lra. reflexivity. Qed.
+
+Lemma state_at_unfold (g : game) (draw : oracle) k :
+  state_at g draw (S k) =
+  fst (@vanilla_iter RNum g false draw (@p_vanilla RNum) (N.of_nat (S k)) (state_at g draw k)).
+Proof. reflexivity. Qed.
+
+Lemma g2_init : @init_state RNum g2 = st12 0 0 0 0 0 0 0 0 [1 / 2; 1 / 2] [1 / 2; 1 / 2].
+Proof.
+  unfold init_state, rinfo_new. cbn [g2 g_infos1 g_infos2 map pi_actions length repeatT].
+  rewrite !of_N_INR. cbn [INR zero one div RNum]. apply st12_ext; reflexivity.
+Qed.
+
+Lemma g2_state1 draw :
+  state_at g2 draw 1 = st12 (-1 / 4) (1 / 4) (1 / 2) (1 / 2) (1 / 4) (-1 / 4) 1 1 [0; 1] [1; 0].
+Proof.
+  cbn [state_at]. rewrite g2_init, g2_iter. cbv zeta. cbn [fst].
+  rewrite rm_np, rm_pn by lra. apply st12_ext; try reflexivity; lra.
+Qed.
+
+Lemma g2_state2 draw :
+  exists s1 s2,
+    state_at g2 draw 2 = st12 (-1 / 4) (1 / 4) (1 / 2) (3 / 2) (1 / 4) (-5 / 4) 3 1 s1 s2.
+Proof.
+  do 2 eexists.
+  rewrite (state_at_unfold g2 draw 1), g2_state1, g2_iter. cbv zeta. cbn [fst].
+  apply st12_ext; try reflexivity; lra.
+Qed.
+
+Lemma g2_bounds2 draw : bounds_at g2 draw 2 = (1 / 4, 1 / 4).
+Proof.
+  unfold bounds_at. change (2 - 1)%nat with 1%nat. rewrite g2_state1, g2_iter. cbv zeta. cbn [snd].
+  rewrite Nat2N.id. cbn [INR].
+  rewrite bound2_r, bound2_l by lra. f_equal; lra.
+Qed.
+
+Lemma g2_WFgame : @WFgame RNum g2.
+Proof.
+  split; [|split; [|split; [|split]]].
+  - cbn. repeat split; lia.
+  - apply mp_WFtables.
+  - apply mp_WFtables.
+  - intros pl i h Hin. cbn in Hin.
+    destruct Hin as [E|[E|[E|[]]]]; inversion E; subst; reflexivity.
+  - intros pl i j a Hi Hp. destruct pl; cbn in Hi, Hp;
+      (destruct i as [|i]; [discriminate Hp|lia]).
+Qed.
+
+Lemma g2_PerfectRecall : @PerfectRecall RNum g2.
+Proof.
+  exists (fun _ _ => []). intros pl i h Hin. cbn in Hin.
+  destruct Hin as [E|[E|[E|[]]]]; inversion E; subst; reflexivity.
+Qed.
+
+Lemma g2_ChanceOK : ChanceOK g2.
+Proof. constructor. Qed.
+
+Section Ex2.
+  Context (BR_upper : forall (g : game) (me : bool) (so : list (list R)),
+              @WFgame RNum g -> @PerfectRecall RNum g -> ChanceOK g -> NonnegRows so ->
+              forall tau, StratOf g me tau -> u_me g me tau so <= @br_value RNum g me so).
+
+  Theorem halved_bound_refuted (draw : oracle) :
+    exists strats b1 b2 ran,
+      @solve_single RNum g2 Full draw (@p_vanilla RNum) 2 never = (strats, Some (b1, b2), ran) /\
+      Rmax b1 b2 / 2 < @si_regret RNum (@info RNum g2 strats).
+  Proof.
+    destruct (@solve_single RNum g2 Full draw (@p_vanilla RNum) 2 never) as [[strats regs] ran] eqn:E.
+    pose proof (solve_single_no_stop g2 Full draw (@p_vanilla RNum) 2 never (fun _ => eq_refl)) as Hran.
+    rewrite E in Hran. cbn [snd] in Hran.
+    destruct (budget_never_exceeded g2 Full draw _ never 2 strats regs ran E) as (_ & Hsome & _).
+    destruct (Hsome ltac:(lia)) as (_ & b1 & b2 & ->).
+    exists strats, b1, b2, ran. split; [reflexivity|].
+    apply solve_single_traj in E as (T & HT & -> & Hb & HranT).
+    assert (HT2 : T = 2%nat) by (apply Nat2N.inj; congruence). subst T.
+    rewrite g2_bounds2 in Hb. injection Hb as <- <-.
+    pose proof (WFgame_arities_pos g2 g2_WFgame) as Hpos.
+    destruct (final_strats_rows g2 draw 2 Hpos) as [ER1 ER2].
+    pose proof (avg_StratOf g2 draw 2 true Hpos) as HA1.
+    pose proof (avg_StratOf g2 draw 2 false Hpos) as HA2.
+    unfold si_regret, info. cbn [si_reg1 si_reg2 fmax sub add zero RNum].
+    rewrite ER1, ER2.
+    rewrite (expected_exact g2 _ _ (StratOf_nonneg _ _ _ HA1) (StratOf_nonneg _ _ _ HA2)).
+    assert (Hst : StratOf g2 false [[1; 0]]).
+    { split; [|reflexivity]. constructor; [|constructor]. split; [repeat constructor; lra|cbn; lra]. }
+    pose proof (BR_upper g2 false (avg g2 draw 2 true) g2_WFgame g2_PerfectRecall g2_ChanceOK
+                         (StratOf_nonneg _ _ _ HA1) [[1; 0]] Hst) as U2.
+    destruct (g2_state2 draw) as (s1 & s2 & Est).
+    assert (EA1 : avg g2 draw 2 true = [[1 / 4; 3 / 4]]).
+    { unfold avg. rewrite Est. unfold st12. cbn [ps_get fst map cum_strat].
+      rewrite avg2 by lra. f_equal. f_equal; [|f_equal]; lra. }
+    assert (EA2 : avg g2 draw 2 false = [[3 / 4; 1 / 4]]).
+    { unfold avg. rewrite Est. unfold st12. cbn [ps_get snd map cum_strat].
+      rewrite avg2 by lra. f_equal. f_equal; [|f_equal]; lra. }
+    rewrite EA1, EA2 in *.
+    assert (Eu : u_game g2 [[1 / 4; 3 / 4]] [[3 / 4; 1 / 4]] = 3 / 16).
+    { unfold u_game. cbv -[Rdiv Rplus Rmult Rminus Ropp Rinv IZR]. lra. }
+    assert (Ev : u_me g2 false [[1; 0]] [[1 / 4; 3 / 4]] = 0).
+    { unfold u_me, u_game. cbv -[Rdiv Rplus Rmult Rminus Ropp Rinv IZR]. lra. }
+    rewrite Eu. rewrite Ev in U2.
+    set (br1 := @br_value RNum g2 true _). set (br2 := @br_value RNum g2 false _) in *.
+    pose proof (Rmax_r (Rmax (br1 - 3 / 16) 0) (Rmax (br2 + 3 / 16) 0)).
+    pose proof (Rmax_l (br2 + 3 / 16) 0).
+    rewrite (Rmax_left (1 / 4) (1 / 4)) by lra. lra.
+  Qed.
+End Ex2.
